@@ -24,6 +24,10 @@ class Creators:
     if isinstance(gfa_line, str) and len(gfa_line) == 0:
       # empty lines (e.g. after the final newline of a GFA string) are ignored
       return
+    if isinstance(gfa_line, gfapy.Line) and gfa_line.is_connected():
+      # (checked here, before the line can decide the version of the Gfa)
+      raise gfapy.RuntimeError(
+        "Line {} is already connected to a GFA instance".format(gfa_line))
     if self._version == "gfa1":
       self.__add_line_GFA1(gfa_line)
     elif self._version == "gfa2":
